@@ -38,7 +38,7 @@
 #define ONE 65536L
 
 #ifdef VH_CBMC
-#define VG_IN_I32_ARRAY(name, n) vh_i32 name[n]
+#define VG_IN_I32_ARRAY(name, n) vh_i32 name[n]; do { int i_; for (i_ = 0; i_ < (int) (n); i_++) name[i_] = nondet_vh_i32 (); } while (0)
 #else
 #define VG_IN_I32_ARRAY(name, n)                                               \
     vh_i32 name[n];                                                            \
